@@ -242,6 +242,11 @@ func c07(r *core.Run) {
 
 	c07Schema(r)
 	c07JSONSave(r, "C07.JSONSAVE")
+	// "running the rebuild again restores full consistency": what the rebuild (and every other writer) stores under an
+	// index key is the signature's own (id, score, tolerance), each in its slot (shared with C05/C06)
+	if r.Prop == "C07" {
+		r.Under("C05.PACKARGS", "C07.PACKARGS", func() { c05PackArgs(r) })
+	}
 }
 
 func c07Rebuild(r *core.Run, fn *ssa.Function, nest []*ssa.Function, commits, directs, batchOps []ssa.CallInstruction) {
